@@ -168,7 +168,7 @@ def inductive_loop(ip, frame, st, spec, seq, tag=None):
             ctx.oblige(f'{tag}.case-split-exhaustive', allc, kind='case-split')
             ctx.assume(this)
     ev0 = len(ctx.ghost.setdefault('events', []))
-    ctx.ghost['events'].append({'kind': 'loop-body-begin', 'loop': tag, 'k': k, 'heap': ctx.heap})
+    ctx.ghost['events'].append({'kind': 'loop-body-begin', 'loop': tag, 'k': k, 'heap': ctx.heap, 'env': dict(frame.env)})
     try:
         ip.exec_block(frame, st.body)
     except _Break:
